@@ -7,6 +7,7 @@ import (
 	"fmt"
 	"os"
 	"strings"
+	"sync"
 
 	"github.com/bufbuild/protocompile/ast"
 	"github.com/bufbuild/protocompile/internal/zzverif/common/featgen"
@@ -243,16 +244,20 @@ func checkC11(n int, c *layoutCase, out *sink, st *c11Stats, skelText map[string
 	}
 	ia, whyA := sameItems(fw, expA)
 	if ia >= 0 {
-		if ib, _ := sameItems(fw, expB); ib >= 0 {
+		if ib, whyB := sameItems(fw, expB); ib >= 0 {
+			exp := expA
+			if ib > ia { // report against the reading of "line comment + CRLF" that agrees longer
+				ia, whyA, exp = ib, whyB, expB
+			}
 			g, w := "<none>", "<none>"
 			if ia < len(fw) {
 				g = fmt.Sprintf("%+v", fw[ia])
 			}
-			if ia < len(expA) {
-				w = fmt.Sprintf("%+v", expA[ia])
+			if ia < len(exp) {
+				w = fmt.Sprintf("%+v", exp[ia])
 			}
 			kind := "token"
-			if ia < len(expA) && expA[ia].comment {
+			if ia < len(exp) && exp[ia].comment {
 				kind = "comment"
 			}
 			out.report(n, c.key(), "items:"+whyA+":"+kind, fmt.Sprintf("item %d: reported %s, specification %s", ia, g, w))
@@ -287,32 +292,67 @@ func skeletonTexts(c *layoutCase, cache map[string]string) {
 }
 
 func runC11(in *bufio.Scanner, out *sink) error {
-	var st c11Stats
+	type job struct {
+		n int
+		c *layoutCase
+	}
+	workers := 8
+	jobs := make(chan job, 256)
+	stats := make([]c11Stats, workers)
+	var wg sync.WaitGroup
+	var skelMu sync.Mutex
 	skel := map[string]string{}
+	for w := 0; w < workers; w++ {
+		wg.Add(1)
+		go func(w int) {
+			defer wg.Done()
+			for j := range jobs {
+				func() {
+					defer func() {
+						if rec := recover(); rec != nil {
+							out.report(j.n, j.c.key(), "panic:c11", fmt.Sprint(rec))
+						}
+					}()
+					skelMu.Lock()
+					skeletonTexts(j.c, skel)
+					local := map[string]string{j.c.Skel: skel[j.c.Skel]}
+					skelMu.Unlock()
+					checkC11(j.n, j.c, out, &stats[w], local)
+				}()
+			}
+		}(w)
+	}
 	r := newCaseReader(in)
+	var rerr error
 	for {
 		c, _, ok, err := r.next()
 		if err != nil {
-			return err
+			rerr = err
+			break
 		}
 		if !ok {
 			break
 		}
-		if c == nil {
-			continue
+		if c != nil {
+			jobs <- job{r.n, c}
 		}
-		n := r.n
-		skeletonTexts(c, skel)
-		func() {
-			defer func() {
-				if rec := recover(); rec != nil {
-					out.report(n, c.key(), "panic:c11", fmt.Sprint(rec))
-				}
-			}()
-			checkC11(n, c, out, &st, skel)
-		}()
+	}
+	close(jobs)
+	wg.Wait()
+	var st c11Stats
+	for _, x := range stats {
+		st.Cases += x.Cases
+		st.Items += x.Items
+		st.Comments += x.Comments
+		st.Tokens += x.Tokens
+		st.Bytes += x.Bytes
+		st.RoundTrips += x.RoundTrips
+		st.WithBOM += x.WithBOM
+		st.NoFinalNewline += x.NoFinalNewline
+		st.EOFComment += x.EOFComment
+		st.SkeletonChecks += x.SkeletonChecks
 	}
 	b, _ := json.Marshal(st)
 	fmt.Fprintf(os.Stderr, "STATS %s\n", b)
-	return nil
+	return rerr
 }
